@@ -20,8 +20,11 @@ RULE = ('specifier sets: 0..6 specifiers, operator uniform over == != >= > <= <,
         '0..4 entries over 3 names per public/private/auto/conflicts list; .pc fields: flags from weighted character classes '
         '(plain, blank, quotes, $, #, backslash, non-ASCII) and paths ${var}/suffix; a case is non-trivial when it has at '
         'least two specifiers / a character outside [A-Za-z0-9_./=-], distinct by exact text; pkg_config projects '
-        '(harness/c17sys.py): 2..4 header directories / header files (names with blank, quote, $), 3..5 static/shared '
-        'libraries with dependencies on earlier ones and forwarded link options, 1..3 install() calls interleaved with 4..6 '
+        '(harness/c17sys.py): 2..4 header directories / header files (names with blank, quote, $), 3..5 libraries of every '
+        'kind (static_library, shared_library, library(kind=dual), library() whose kind the library mode decides) with '
+        'dependencies on earlier ones and forwarded link options, configured under the three library modes (shared, '
+        'shared+static, static) dealt out in turn, one project per quick run also built and consumed (dynamic and, where '
+        'every library of the closure has an archive, forced-static link), 1..3 install() calls interleaved with 4..6 '
         'pkg_config() calls dealt from all 18 combinations of auto_fill x libs None/[]/[..] x includes None/[]/[..] (every '
         'project has an auto_fill package with an explicitly empty list and one with nothing given), options with blanks / '
         'quotes / $ / ; / backquote, versions None / empty / given, public and private requirements on two stub packages and '
